@@ -301,6 +301,10 @@ func checkC02(p *core.Program, r *core.Report) {
 	_ = fmt.Sprint
 
 	// ---- R6 what the reader may leave unset, the writer tolerates
+	r.Rule("R7", "a reference the engine writes is a reference the reader accepts: the reference to an asset (assets.<X>Reference, persisted in events, tickets and runs) is built from the asset without validation and validated when read back, so the `validate` tag on its UUID accepts every UUID the asset's own definition (assets/static) accepts for the same UUID type — `uuid4` on the reference against `uuid` on the asset makes a session that used such an asset unreadable")
+	c02R7(p, r)
+	r.Rule("R8", "reading back never indexes out of range: the index obligations over flows/engine and flows/runs — which hold the session, run and legacy-context readers — are obligations here too (imported from C05/R7): a persisted session the live one continues from must not panic its reader")
+	importObligations(p, r, "C05", map[string]bool{"R7": true}, "R8", "the persisted session cannot be read back (the reader panics) although the live session carries on")
 	r.Rule("R6", "reader and writer agree on what may be absent: a pointer field that the read side stores only under a presence test is dereferenced by the marshal side only under a nil test (otherwise a restored object cannot be persisted again)")
 	{
 		condStore := map[*types.Var]string{}
@@ -715,4 +719,74 @@ func c02NilSafeMethod(g *ssa.Function) bool {
 		}
 	})
 	return safe
+}
+
+// ---------------------------------------------------------------------------------------------- R7
+
+func c02R7(p *core.Program, r *core.Report) {
+	uuidRule := func(tag string) string {
+		for _, part := range strings.Split(reflect.StructTag(tag).Get("validate"), ",") {
+			if strings.HasPrefix(part, "uuid") {
+				return part
+			}
+		}
+		return ""
+	}
+	// strictness: "" (anything) < uuid (any version) < uuidN (one version)
+	accepts := func(reader, writer string) bool {
+		switch {
+		case reader == "" || reader == writer:
+			return true
+		case reader == "uuid":
+			return strings.HasPrefix(writer, "uuid")
+		}
+		return false
+	}
+	type site struct {
+		owner, rule string
+		pos         token.Pos
+	}
+	collect := func(rel string) map[string][]site {
+		out := map[string][]site{}
+		pk := p.Pkg(rel)
+		if pk == nil {
+			return out
+		}
+		sc := pk.Types.Scope()
+		for _, name := range sc.Names() {
+			tn, ok := sc.Lookup(name).(*types.TypeName)
+			if !ok {
+				continue
+			}
+			st, ok := tn.Type().Underlying().(*types.Struct)
+			if !ok {
+				continue
+			}
+			for i := 0; i < st.NumFields(); i++ {
+				f := st.Field(i)
+				n, ok := f.Type().(*types.Named)
+				if !ok || !strings.HasSuffix(n.Obj().Name(), "UUID") || n.Obj().Pkg() == nil {
+					continue
+				}
+				if jn := strings.Split(reflect.StructTag(st.Tag(i)).Get("json"), ",")[0]; jn != "uuid" {
+					continue
+				}
+				out[n.Obj().Pkg().Name()+"."+n.Obj().Name()] = append(out[n.Obj().Pkg().Name()+"."+n.Obj().Name()], site{name, uuidRule(st.Tag(i)), f.Pos()})
+			}
+		}
+		return out
+	}
+	refs, defs := collect("assets"), collect("assets/static")
+	n := 0
+	for _, t := range core.SortedKeys(refs) {
+		for _, ref := range refs[t] {
+			for _, def := range defs[t] {
+				n++
+				r.Check(accepts(ref.rule, def.rule), "R7", "assets."+ref.owner+".UUID~static."+def.owner, p.Pos(ref.pos), "reference: "+ref.rule+", asset: "+def.rule,
+					fmt.Sprintf("assets.%s validates its UUID as %q but the asset it refers to (static.%s) is accepted with %q: a reference the engine builds from such an asset and persists (event, ticket, run) is rejected when the session is read back", ref.owner, ref.rule, def.owner, def.rule))
+			}
+		}
+	}
+	r.Count("reference_asset_uuid_pairs", n)
+	r.Require("reference_asset_uuid_pairs", n, 6)
 }
